@@ -132,7 +132,9 @@ def check_function(ctx, modname, name, f, inline, n_random):
                {"kids": [{"k": "html", "s": "\n<i>"}], "dicts": [], "kw": []},
                {"kids": [{"k": "num", "v": 0}, {"k": "none"}, {"k": "list", "t": "tuple", "c": [T("\nz")]}], "dicts": [], "kw": [["data_x", {"t": "true"}]]},
                {"kids": [], "dicts": [[["style", S_("a:b;")]], [["style", S_("c:d;")]]], "kw": [["style", S_("e:f;")]]},
-               {"kids": [gen.TAG("span", T("\nin"), ws=False)], "dicts": [], "kw": [["title", S_("\nt")]]}]
+               {"kids": [gen.TAG("span", T("\nin"), ws=False)], "dicts": [], "kw": [["title", S_("\nt")]]},
+               {"kids": [], "dicts": [[["xlink:href", S_("#a")]]], "kw": [["xlink_href", S_("#b")], ["xml_lang", S_("en")], ["data_x_y", S_("1")], ["aria_label", S_("l")]]},
+               {"kids": [T("k")], "dicts": [], "kw": [["class_", S_("c")], ["for_", S_("f")], ["http_equiv", S_("r")], ["accept_charset", S_("u")], ["x__", S_("d")]]}]
     for args in probes + [rand_args(rng) for _ in range(n_random)]:
         w2 = dict(wit, args=args)
         try:
